@@ -9,6 +9,11 @@ import GojaModel.C04.LemmasGet
 import GojaModel.C04.LemmasOrder
 import GojaModel.C04.HistIntegrity
 import GojaModel.C04.Exotic
+import GojaModel.C04.Cow
+import GojaModel.C04.Entry
+import GojaModel.C04.Args
+import GojaModel.C04.Templ
+import GojaModel.C04.TypedLemmas
 namespace GojaModel.C04
 set_option linter.unusedSimpArgs false
 set_option linter.unusedVariables false
@@ -196,6 +201,41 @@ theorem propOrder_idxCount (ops : List POOp) :
       have h2 := hall a this.1
       rw [this.2] at h2; cases h2
 
+/-! ### PropOrder at the buffer level: the copy-on-write marker (the C04-m3 class) -/
+
+/-- For EVERY sequence of property creations, deletions, enumerations, iterator creations (nested / abandoned) and iterator
+completions, with ANY capacity policy: the cells `o.propNames[0:len]` of the object's current backing array hold exactly
+the name list of the list-level model `PO` run on the same operations — so `propOrder_sorted`, `propOrder_no_dup` and
+`propOrder_idxCount` hold of the real slice, whichever of the in-place / copy branches were taken. -/
+theorem cow_refines_propOrder (ops : List CowOp) :
+    let s := emptyCow.run ops
+    s.po = PO.empty.run (ops.filterMap CowOp.toPO) ∧
+      (s.mem.cells s.buf).take s.po.names.length = s.po.names := by
+  intro s
+  exact ⟨run_po ops emptyCow, (inv_run ops inv_empty).content⟩
+
+/-- What the marker is for: a for-in iterator created at any point of any history reads, for as long as it has not run
+off the end, exactly the name list of the moment of its creation — no later add / delete / re-sort / nested or abandoned
+iteration / completion of another iterator changes a cell of its slice. -/
+theorem cow_snapshot_stable (ops1 ops2 : List CowOp) (c : Nat) :
+    let s0 := emptyCow.run ops1
+    let s1 := s0.step (.iterate c)
+    ∃ it, s1.iters[s0.iters.length]? = some it ∧ (it.active = true → it.snap = s1.po.names) ∧
+      ∀ it2, (s1.run ops2).iters[s0.iters.length]? = some it2 → it2.active = true →
+        ((s1.run ops2).mem.cells it2.buf).take it2.len = it.snap ∧ it2.len = it.snap.length := by
+  intro s0 s1
+  obtain ⟨x, hx, hsnap⟩ := iterate_new s0 c
+  have hk : s1.iters[s0.iters.length]? = some x := by
+    show (s0.step (.iterate c)).iters[s0.iters.length]? = some x
+    rw [hx]; simp
+  refine ⟨x, hk, fun ha => (hsnap ha).1, ?_⟩
+  intro it2 h2 ha2
+  obtain ⟨it', h', hb, hl, hs, hact⟩ := run_iters_stable ops2 s1 _ x hk
+  rw [h2] at h'; cases h'
+  have hinv : CowInv (s1.run ops2) := inv_run ops2 (inv_step (inv_run ops1 inv_empty) (.iterate c))
+  obtain ⟨_, e2, _, _⟩ := hinv.itOk it2 (List.mem_of_getElem? h2) ha2
+  exact ⟨e2.trans hs, by rw [hl]; exact (hsnap (hact ha2)).2⟩
+
 /-! ### essential invariants — slot level (every mutation of a slot goes through ValidateAndApply / [[Delete]]) -/
 
 /-- A non-configurable property keeps kind, enumerability, accessor functions; a non-writable one keeps its value;
@@ -312,5 +352,163 @@ theorem stringExotic_delete_refines_ordinary {V} (base : Obj V) (chars : List V)
       = (strMat (strDelete base chars k).1 chars, (strDelete base chars k).2)
     ∧ NoCharIdx (strDelete base chars k).1 chars :=
   stringExotic_delete_aux base chars hb k
+
+/-- [[OwnPropertyKeys]] of a String exotic object (string indices, then the ordinary part's integer keys, strings, symbols)
+= OrdinaryOwnPropertyKeys of the materialised object. -/
+theorem stringExotic_ownKeys_refines_ordinary {V} (base : Obj V) (chars : List V) (hb : NoCharIdx base chars) :
+    strOwnKeys base chars = ownKeys (strMat base chars).props :=
+  stringExotic_ownKeys_aux base chars hb
+
+/-! ### exotic delta: mapped `arguments` object (10.4.4, object_args.go) -/
+
+/-- `argumentsObject.defineOwnPropertyStr` on any slot (mapped to a parameter variable, or already unmapped) =
+ValidateAndApplyPropertyDescriptor on the data property the slot stands for (value = the variable's current value), for
+every well-formed descriptor; the invariant "a mapped slot is writable" is kept.  With `argsSetOwn_mapped` and
+`argsDelete_spec` (below): while the parameter variables are written only through the arguments object, a mapped arguments
+object is observationally the ORDINARY object with those data properties — which is how the correspondence models it. -/
+theorem mappedArguments_define_refines_ordinary {V} [DecidableEq V] (undef : V) (slot : ASlot V) (env : Nat → V) (d : Desc V)
+    (ext : Bool) (hw : d.wellFormed = true) (hok : slot.ok = true) :
+    (argsDefine undef slot env d ext).map (fun r => r.1.spec undef r.2) =
+      validateAndApply undef (some (slot.spec undef env)) d ext
+    ∧ ∀ r, argsDefine undef slot env d ext = some r → r.1.ok = true :=
+  argsDefine_refines undef slot env d ext hw hok
+
+/-- [[Set]] on a mapped index writes the variable and the slot then stands for the same writable data property with the new
+value; [[Delete]] removes a slot iff the property it stands for is configurable. -/
+theorem mappedArguments_set_delete_refine_ordinary {V} (undef : V) (env : Nat → V) (e c : Bool) (ref : Nat) (v : V)
+    (slot : ASlot V) :
+    (argsSetOwn (ASlot.mapped true e c ref) env v).map (fun r => r.1.spec undef r.2) = some (.data v true e c)
+    ∧ argsDelete slot = (slot.spec undef env).configurable :=
+  ⟨argsSetOwn_mapped undef env e c ref v, argsDelete_spec undef env slot⟩
+
+/-! ### exotic delta: lazily-templated built-ins (object_template.go) -/
+
+/-- Symbol keys: `getOwnPropSym`'s fast path, `defineOwnPropertySym`, `deleteSym` and a symbol-keyed store on a templated
+object whose symbol table may or may not be materialised yet = lookup / ordinary define / ordinary delete / store on the
+template's symbol property list (until the first write) resp. the materialised table.  A fresh object stands for exactly
+the template's lists. -/
+theorem templated_symbols_refine_eager {V} [DecidableEq V] (undef : V) (t : Tmpl V) (o : TObj V) (s : Key) (d : Desc V)
+    (v : Stored V) :
+    o.getOwnSym t s = lookup (o.absSym t) s
+    ∧ ((o.defineSym undef t s d).1.absSym t, (o.defineSym undef t s d).2) =
+        (match defineOwn undef (lookup (o.absSym t) s) d o.ext with
+         | some v => (put (o.absSym t) s v, true)
+         | none => (o.absSym t, false))
+    ∧ ((o.deleteSym t s).1.absSym t, (o.deleteSym t s).2) =
+        (match lookup (o.absSym t) s with
+         | none => (o.absSym t, true)
+         | some v => if checkDelete v then (eraseKey (o.absSym t) s, true) else (o.absSym t, false))
+    ∧ (o.putSym t s v).absSym t = put (o.absSym t) s v :=
+  ⟨getOwnSym_eq t o s, defineSym_abs undef t o s d, deleteSym_abs t o s, putSym_abs t o s v⟩
+
+/-- String keys: `defineOwnPropertyStr` / `deleteStr` on the lazy object (template values materialised on demand, name list
+materialised at the first change, "white holes" for deleted template keys) = the ordinary define / delete on the property
+list it stands for, the invariant is kept, and own lookups agree; a fresh object satisfies the invariant and stands for
+the template. -/
+theorem templated_strings_refine_eager {V} [DecidableEq V] (undef : V) (t : Tmpl V) (o : TObj V) (h : o.WF t) (k : Key)
+    (d : Desc V) :
+    lookup (o.absStr t) k = o.getOwnStr t k
+    ∧ (((o.defineStr undef t k d).1.absStr t, (o.defineStr undef t k d).2) =
+        (match defineOwn undef (lookup (o.absStr t) k) d o.ext with
+         | some v => (put (o.absStr t) k v, true)
+         | none => (o.absStr t, false))
+       ∧ (o.defineStr undef t k d).1.WF t)
+    ∧ (((o.deleteStr t k).1.absStr t, (o.deleteStr t k).2) =
+        (match lookup (o.absStr t) k with
+         | none => (o.absStr t, true)
+         | some v => if checkDelete v then (eraseKey (o.absStr t) k, true) else (o.absStr t, false))
+       ∧ (o.deleteStr t k).1.WF t) :=
+  ⟨lookup_absStr t o h k, defineStr_abs undef t o h k d, deleteStr_abs t o h k⟩
+
+theorem templated_fresh_is_template {V} (t : Tmpl V) (ext : Bool) (hn : (keysOf t.strs).Nodup) :
+    let o : TObj V := { values := [], propNames := none, symValues := none, ext := ext }
+    o.absSym t = t.syms ∧ o.WF t ∧ ∀ k, lookup (o.absStr t) k = lookup t.strs k :=
+  fresh_abs t ext hn
+
+/-- the seeded change C04-m2 as a definition: materialise the symbols only when the key is a template symbol -/
+def defineSymM2 {V} [DecidableEq V] (undef : V) (t : Tmpl V) (o : TObj V) (s : Key) (d : Desc V) : TObj V × Bool :=
+  let syms := if o.symValues.isNone && (lookup t.syms s).isSome then t.syms else o.symValues.getD []
+  match defineOwn undef (lookup syms s) d o.ext with
+  | some v => ({ o with symValues := some (put syms s v) }, true)
+  | none => ({ o with symValues := some syms }, false)
+
+/-- REGRESSION WITNESS (C04-m2 class): with that guard a first define of a fresh symbol loses the template's symbol
+properties — the refinement fails. -/
+theorem templated_symbols_m2_witness :
+    let t : Tmpl Nat := { strs := [], syms := [(.sym 4, .prop { value := some 7, writable := false, configurable := false, enumerable := false, accessor := false, getterFunc := none, setterFunc := none })] }
+    let o : TObj Nat := { values := [], propNames := none, symValues := none, ext := true }
+    lookup ((defineSymM2 0 t o (.sym 0) (descFull 1)).1.absSym t) (.sym 4) = none
+    ∧ lookup ((o.defineSym 0 t (.sym 0) (descFull 1)).1.absSym t) (.sym 4) ≠ none := by
+  decide
+
+/-! ### exotic delta: integer-indexed exotic objects (typed arrays, 10.4.5) -/
+
+/-- The integer-indexed layer is a conservative extension: on a heap without typed arrays every exotic internal method is
+the ordinary one ([[Set]]: OrdinarySet with its heap effect). -/
+theorem integerIndexed_conservative {V} [DecidableEq V] (undef : V) (c : V → V) (xh : XHeap V) (hn : NoTyped xh)
+    (o : Nat) (chain : List Nat) (k : Key) (v : V) (r : Recv) (d : Desc V) :
+    xGetOwn xh o k = lookup (xh.h o).props k
+    ∧ xDefine undef c xh o k d = ({ xh with h := (sDefine undef xh.h o k d).1 }, (sDefine undef xh.h o k d).2)
+    ∧ xHas xh chain k = sHas xh.h chain k
+    ∧ xGet undef xh chain k r = sGet undef xh.h chain k r
+    ∧ xSet undef c xh chain k v r =
+        ({ xh with h := applyAct xh.h (ordinarySet undef xh.h.view chain k v r) }, outOf (ordinarySet undef xh.h.view chain k v r))
+    ∧ xDelete xh o k = ({ xh with h := (sDelete xh.h o k).1 }, (sDelete xh.h o k).2)
+    ∧ xOwnKeys xh o = ownKeys (xh.h o).props :=
+  ⟨xGetOwn_ord xh hn o k, xDefine_ord undef c xh hn o k d, xHas_ord xh hn k chain, xGet_ord undef xh hn k r chain,
+   xSet_ord undef c xh hn k v r chain, xDelete_ord xh hn o k, xOwnKeys_ord xh hn o⟩
+
+/-- Over ARBITRARY histories of define / set (any chain, any receiver) / delete / freeze / seal / preventExtensions /
+setPrototypeOf, every typed array keeps its element count (and stays a typed array) — hence, at every moment: index n is an
+own property iff n < length, [[HasProperty]] of an index never consults the prototype chain, a valid index cannot be
+deleted, and the own index keys are exactly 0..length-1. -/
+theorem integerIndexed_length_fixed {V} [DecidableEq V] (undef : V) (c : V → V) (xh : XHeap V) (ops : List (XOp V))
+    (o : Nat) (els : List V) (h : xh.typed o = some els) :
+    ∃ els', (xRun undef c xh ops).typed o = some els' ∧ els'.length = els.length ∧
+      ∀ n rest, ((xGetOwn (xRun undef c xh ops) o (.idx n)).isSome = decide (n < els.length))
+        ∧ xHas (xRun undef c xh ops) (o :: rest) (.idx n) = decide (n < els.length)
+        ∧ (xDelete (xRun undef c xh ops) o (.idx n)).2 = !(decide (n < els.length))
+        ∧ (Key.idx n ∈ xOwnKeys (xRun undef c xh ops) o ↔ n < els.length) := by
+  have hs := xRun_shape undef c ops xh o
+  rw [h] at hs
+  cases ht : (xRun undef c xh ops).typed o with
+  | none => rw [ht] at hs; simp at hs
+  | some els' =>
+    rw [ht] at hs
+    simp only [Option.map_some, Option.some.injEq] at hs
+    refine ⟨els', rfl, hs, ?_⟩
+    intro n rest
+    have := typed_index_facts (xRun undef c xh ops) o els' ht n rest
+    rw [hs] at this
+    exact this
+
+/-! ### the same answer through syntax, Object.*/Reflect.* and the Go API, for an index key spelled as integer or string -/
+
+/-- Every entry point × key spelling reaches one of the hand-written copies (`copyOf`); for [[Set]] (receiver = the
+object), [[Get]], [[HasProperty]], [[Delete]] and [[DefineOwnProperty]] the result is the same function of the abstract
+key whichever copy that is — and it is the spec's (OrdinarySet / OrdinaryGet / OrdinaryHasProperty / OrdinaryDelete /
+ValidateAndApply via `defineOwn_refines_spec`). -/
+theorem syntax_eq_reflect_eq_goapi {V} [DecidableEq V] (undef : V) (mv : MView V) (hinv : RepInvView mv) (hc : IdxCountOk mv)
+    (e1 e2 : Entry) (sp1 sp2 : Spelling) (o : Nat) (rest : List Nat) (k : Key) (v : V) (d : Desc V) :
+    setEntry undef mv e1 sp1 o rest k v = setEntry undef mv e2 sp2 o rest k v
+    ∧ (setEntry undef mv e1 sp1 o rest k v).map (absProp undef) = ordinarySet undef (mv.abs undef) (o :: rest) k v (.obj o)
+    ∧ getEntry undef mv e1 sp1 o rest k = getEntry undef mv e2 sp2 o rest k
+    ∧ getEntry undef mv e1 sp1 o rest k = ordinaryGet undef (mv.abs undef) (o :: rest) k (.obj o)
+    ∧ hasEntry mv e1 sp1 (o :: rest) k = hasEntry mv e2 sp2 (o :: rest) k
+    ∧ hasEntry mv e1 sp1 (o :: rest) k = ordinaryHas (mv.abs undef) (o :: rest) k
+    ∧ deleteEntry mv e1 sp1 o k = deleteEntry mv e2 sp2 o k
+    ∧ deleteEntry mv e1 sp1 o k = ordinaryDelete (mv.abs undef) o k
+    ∧ defineEntry undef mv e1 sp1 o k d = defineEntry undef mv e2 sp2 o k d := by
+  refine ⟨?_, ?_, ?_, ?_, ?_, ?_, ?_, ?_, ?_⟩
+  · rw [setEntry_eq undef mv hinv hc, setEntry_eq undef mv hinv hc]
+  · rw [setEntry_eq undef mv hinv hc]
+    exact (setStr_refines_aux undef mv hinv k v (o :: rest)).1 o rest rfl
+  · rw [getEntry_eq, getEntry_eq]
+  · rw [getEntry_eq]; exact getStr_refines undef mv hinv k (.obj o) (o :: rest)
+  · rw [hasEntry_eq, hasEntry_eq]
+  · rw [hasEntry_eq]; exact hasStr_refines undef mv k (o :: rest)
+  · rw [deleteEntry_eq, deleteEntry_eq]
+  · rw [deleteEntry_eq]; exact deleteStr_refines undef mv o k
+  · rw [defineEntry_eq, defineEntry_eq]
 
 end GojaModel.C04
